@@ -588,7 +588,7 @@ def main(run):
     measured = run.replay_findings(handlers(run, shoot, gosig))
     run.log("findings:", measured)
 
-    nskel = 500 if run.thorough() else 50
+    nskel = 500 if run.thorough() else 42
     cases = gen_cases(run, nskel)
     # corpus of past failures first
     corpus = sorted((lib.VERIF / "corpus" / "C16").glob("*.json")) if (lib.VERIF / "corpus" / "C16").exists() else []
